@@ -371,20 +371,23 @@ theorem C6uHomeOK.exists_step {secs : List Section} {ings : Array (Ingredient (S
     have := hle _ (List.getElem_mem hklt)
     omega
 
+/-- homes are non-decreasing in the ingredient index -/
+theorem C6uHomeOK.mono {secs : List Section} {ings : Array (Ingredient (ScalableValue α))}
+    {homes : List Nat} (h : C6uHomeOK secs ings homes) {a b va vb : Nat} (hab : a ≤ b)
+    (ha : homes[a]? = some va) (hb : homes[b]? = some vb) : va ≤ vb := by
+  obtain ⟨_, hmono, _, _⟩ := h
+  rcases Nat.lt_or_eq_of_le hab with hlt | rfl
+  · obtain ⟨hla, rfl⟩ := List.getElem?_eq_some_iff.mp ha
+    obtain ⟨hlb, rfl⟩ := List.getElem?_eq_some_iff.mp hb
+    exact List.pairwise_iff_getElem.mp hmono a b hla hlb hlt
+  · rw [ha] at hb; cases hb; exact Nat.le_refl _
+
 /-- an ingredient `k` lying (in table order) between two ingredients `k0 ≤ k ≤ k1` with homes `s0` and `s1`
     (e.g. ingredients used by steps of sections `s0`, `s1`: `C6uHomeUsed`) has its home between `s0` and `s1` -/
 theorem C6uHomeOK.between {secs : List Section} {ings : Array (Ingredient (ScalableValue α))}
     {homes : List Nat} (h : C6uHomeOK secs ings homes)
     {k0 k k1 s0 s1 x : Nat} (h0 : homes[k0]? = some s0) (h1 : homes[k1]? = some s1) (hx : homes[k]? = some x)
-    (hk0 : k0 ≤ k) (hk1 : k ≤ k1) : s0 ≤ x ∧ x ≤ s1 := by
-  obtain ⟨_, hmono, _, _⟩ := h
-  have mono : ∀ (a b va vb : Nat), a ≤ b → homes[a]? = some va → homes[b]? = some vb → va ≤ vb := by
-    intro a b va vb hab ha hb
-    rcases Nat.lt_or_eq_of_le hab with hlt | rfl
-    · obtain ⟨hla, rfl⟩ := List.getElem?_eq_some_iff.mp ha
-      obtain ⟨hlb, rfl⟩ := List.getElem?_eq_some_iff.mp hb
-      exact List.pairwise_iff_getElem.mp hmono a b hla hlb hlt
-    · rw [ha] at hb; cases hb; exact Nat.le_refl _
-  exact ⟨mono _ _ _ _ hk0 h0 hx, mono _ _ _ _ hk1 hx h1⟩
+    (hk0 : k0 ≤ k) (hk1 : k ≤ k1) : s0 ≤ x ∧ x ≤ s1 :=
+  ⟨h.mono hk0 h0 hx, h.mono hk1 hx h1⟩
 
 end Cook
